@@ -30,7 +30,7 @@ func c19Rest(c *core.Case) *core.Result {
 	defer w.close()
 	r := c.Rng
 	g := w.g
-	key := "pd"
+	key := fmt.Sprintf("pd-%d-%d", c.Index, r.Intn(1<<20)) // a different key per case: nothing may depend on what a key is called
 	w.ledger.SkipKeys[key] = true
 	variant := r.Intn(3) // 0: absent at the first patch, 1: created by a client, 2: created + subscriber
 	c.Step("rest variant=%d (0 absent, 1 created by a client, 2 created and subscribed by a second client)", variant)
